@@ -8,6 +8,7 @@ package main
 import (
 	"fmt"
 	"go/token"
+	"go/types"
 	"sort"
 	"strings"
 
@@ -968,6 +969,8 @@ func (lc *c04LoopCtx) checkReset() {
 				} else {
 					bad, badT = fmt.Sprintf("Truncate(%dns) rounds on the absolute time line, which is not the start of the local %s in zones whose offset is not a multiple of it", d, u), n
 				}
+			case u == "Minute" && d > 60e9 && d%60e9 == 0, u == "Second" && d > 1e9 && d%1e9 == 0:
+				bad, badT = fmt.Sprintf("Truncate(%dns) also clears the %s field the loop is searching: the search restarts before the instant Next was given, so Next can return an instant that is not after t (6-field '0 5 * * * *' from 10:17:35 yields 10:05:00 of the same hour)", d, u), n
 			case u == "Hour" && d == 3600e9:
 				bad, badT = "Truncate(1h) rounds on the absolute time line: in zones with a 30/45-minute offset (Asia/Kolkata, Asia/Kathmandu) this is not the start of the local hour", n
 			default:
@@ -1458,19 +1461,26 @@ func (st *c04State) checkZone(na *c04NextA) {
 		if outer != nil {
 			var cand []c04MemKey
 			allInstrs(next, func(in ssa.Instruction) {
-				if st, ok := in.(*ssa.Store); ok {
-					if fa, ok := st.Addr.(*ssa.FieldAddr); ok && c04IsTimeType(st.Val.Type()) {
+				if st, ok := in.(*ssa.Store); ok && c04IsTimeType(st.Val.Type()) {
+					var k c04MemKey
+					okK := false
+					if fa, ok := st.Addr.(*ssa.FieldAddr); ok {
 						if a, ok := fa.X.(*ssa.Alloc); ok && c04LocalStructOnly(a) {
-							k := c04MemKey{a, fa.Field, nil}
-							dup := false
-							for _, c := range cand {
-								if c == k {
-									dup = true
-								}
+							k, okK = c04MemKey{a, fa.Field, nil}, true
+						}
+					} else if a, ok := st.Addr.(*ssa.Alloc); ok && c04LocalCellOnly(a) && outer.Dominates(st.Block()) {
+						// a variable captured by closures, written inside the search
+						k, okK = c04MemKey{a, -1, nil}, true
+					}
+					if okK {
+						dup := false
+						for _, c := range cand {
+							if c == k {
+								dup = true
 							}
-							if !dup {
-								cand = append(cand, k)
-							}
+						}
+						if !dup {
+							cand = append(cand, k)
 						}
 					}
 				}
@@ -1534,7 +1544,7 @@ func (st *c04State) checkZone(na *c04NextA) {
 				bad = "a time.Date reached from Next is built in the fixed location " + alt.Name
 				badPos = c.Pos()
 			default:
-				undec = "the location of a time.Date reached from Next is computed as " + alt.Op + " " + alt.Name
+				undec = "the location of a time.Date reached from Next is computed as " + alt.Key() + " in " + fr.fn.Name()
 			}
 		}
 		if !canBeSched && undec == "" && bad == "" {
@@ -1849,8 +1859,11 @@ func (lc *c04LoopCtx) flagUse(fr *c04Frame2, j, nres int, isTop func(*ssa.BasicB
 	return false, false
 }
 
-// c04MemStoredFields: the fields of local struct al stored to inside the loop (sorted).
+// c04MemStoredFields: the fields of local struct al stored to inside the loop (sorted); for a plain variable: [-1].
 func c04MemStoredFields(l *c04Loop, al *ssa.Alloc) []int {
+	if _, isStruct := deref1(al.Type()).Underlying().(*types.Struct); !isStruct || c04IsTimeType(deref1(al.Type())) {
+		return []int{-1}
+	}
 	set := map[int]bool{}
 	for b := range l.Body {
 		for _, in := range b.Instrs {
@@ -1869,8 +1882,9 @@ func c04MemStoredFields(l *c04Loop, al *ssa.Alloc) []int {
 	return out
 }
 
-// c04MemInstant: the time.Time field of a local struct (only accessed through
-// its fields) that the loop stores to; n = number of such fields found.
+// c04MemInstant: the time.Time variable held in memory that the loop stores to:
+// a field of a local struct (only accessed through its fields), or a local
+// variable that closures capture (a heap cell). n = number of candidates found.
 func c04MemInstant(l *c04Loop) (al *ssa.Alloc, field int, n int) {
 	seen := map[c04MemKey]bool{}
 	var blocks []*ssa.BasicBlock
@@ -1881,21 +1895,28 @@ func c04MemInstant(l *c04Loop) (al *ssa.Alloc, field int, n int) {
 	for _, b := range blocks {
 		for _, in := range b.Instrs {
 			st, ok := in.(*ssa.Store)
-			if !ok {
+			if !ok || !c04IsTimeType(st.Val.Type()) {
 				continue
 			}
-			fa, ok := st.Addr.(*ssa.FieldAddr)
-			if !ok {
+			var k c04MemKey
+			switch x := st.Addr.(type) {
+			case *ssa.FieldAddr:
+				a, ok := x.X.(*ssa.Alloc)
+				if !ok || !c04LocalStructOnly(a) {
+					continue
+				}
+				k = c04MemKey{a, x.Field, nil}
+			case *ssa.Alloc:
+				if !c04LocalCellOnly(x) {
+					continue
+				}
+				k = c04MemKey{x, -1, nil}
+			default:
 				continue
 			}
-			a, ok := fa.X.(*ssa.Alloc)
-			if !ok || !c04LocalStructOnly(a) || !c04IsTimeType(st.Val.Type()) {
-				continue
-			}
-			k := c04MemKey{a, fa.Field, nil}
 			if !seen[k] {
 				seen[k] = true
-				al, field = a, fa.Field
+				al, field = k.Alloc.(*ssa.Alloc), k.Field
 				n++
 			}
 		}
